@@ -5,22 +5,34 @@
 //!        H: OpenMessage::addpath_intersection + four_octet_capable of both (the helper)
 //!        B: PeerUpNotification::session_config      (sent = local, rcvd = peer)
 //!        P: PeerUpNotification::pph_session_config  (4-octet from the per-peer header A flag)
+//!        legacy: per-peer header flags 0 = 0x00, 1 = 0x20 (A), 2 = 0x60 (A+L), 3 = 0xd0 (V+L+O)
+//!   fdm  <a.s> <dir> <a.s> <dir>      AddpathFamDir::new(..).merge(AddpathFamDir::new(..))
 //!   live <fam,fam|-> <peerOpenHex>
 //!        a real Session (loopback TCP, current-thread runtime) configured with ADD-PATH for the
 //!        given families, state OpenSent, Event::BgpOpen(peer) injected; read through
 //!        Connection::verif_session_config and by decoding two probe UPDATEs.
+//!   live2 <fam,fam|-> <peerOpen1Hex> <peerOpen2Hex>
+//!        ONE Session, two connections: exchange #1, connection lost, new stream through the public
+//!        attach_stream, exchange #2; observed after #2 (must be what pair #2 alone gives).
 //! Families under observation are fixed: 1/1 1/2 2/1 2/2 1/128 25/70 (+ whatever the OPENs mention).
 //!
 //! The oracle decodes both OPENs with its own decoder (below) and evaluates the property's
 //! definition: rx(fam) <=> local advertises Receive|Both and peer advertises Send|Both, tx
-//! symmetrically, four-octet <=> both carry capability 65 (P: <=> not legacy).
+//! symmetrically, four-octet <=> both carry capability 65 (P: <=> not legacy); the three
+//! derivations must give the same answer (live lines: the helper is run on the OPEN the session
+//! sent and the peer's).  For a family an OPEN names twice with different directions the property
+//! does not say which entry counts: any pairing of a local with a peer entry is accepted, but the
+//! derivations must still agree with each other.  OPENs whose ADD-PATH capabilities are not
+//! well-formed (RFC 7911: length a non-zero multiple of 4, every direction 1..3) are outside the
+//! property: any outcome but a panic is accepted (routecore's behaviour there is still mirrored by
+//! the model: helper/BMP derive no ADD-PATH at all, the live session refuses the OPEN).
 use crate::common::*;
 use crate::props::c03::RefOpen;
 use bytes::Bytes;
 use routecore::bgp::fsm::session::{BgpConfig, Command, Message as SessMsg, Session};
 use routecore::bgp::fsm::state_machine::{Event, State};
 use routecore::bgp::message::{Message as BgpMsg, OpenMessage, SessionConfig};
-use routecore::bgp::types::{AddpathDirection, AfiSafiType};
+use routecore::bgp::types::{AddpathDirection, AddpathFamDir, AfiSafiType};
 use routecore::bmp::message::PeerUpNotification;
 use std::collections::BTreeMap;
 
@@ -63,11 +75,11 @@ fn ref_ap(bs: &[u8]) -> Option<(bool, Vec<(Fam, u8)>)> {
     Some((four, v))
 }
 
-fn peer_up(sent: &[u8], rcvd: &[u8], legacy: bool) -> Vec<u8> {
+fn peer_up(sent: &[u8], rcvd: &[u8], flags: u8) -> Vec<u8> {
     let mut m = vec![3u8, 0, 0, 0, 0, 3];
     // per-peer header: type 0, flags, RD 8, address 16, AS 4, BGP id 4, ts 8
     m.push(0);
-    m.push(if legacy { 0x20 } else { 0 });
+    m.push(flags);
     m.extend_from_slice(&[0; 8]);
     m.extend_from_slice(&[0, 0, 0, 0, 0, 0, 0, 0, 0, 0, 0, 0, 10, 0, 0, 2]);
     m.extend_from_slice(&[0, 0, 0xfd, 0xe8]);
@@ -83,7 +95,11 @@ fn peer_up(sent: &[u8], rcvd: &[u8], legacy: bool) -> Vec<u8> {
     m
 }
 
-fn exec_neg(lo: Vec<u8>, po: Vec<u8>, legacy: bool) -> String {
+/// per-peer header flags for the request's last field: 0 = none, 1 = A (legacy 2-octet AS_PATH
+/// format, RFC 7854 4.2), 2 = A + L (post-policy), 3 = V + L + O without A
+fn flags_of(g: &str) -> Option<u8> { match g { "0" => Some(0), "1" => Some(0x20), "2" => Some(0x60), "3" => Some(0xd0), _ => None } }
+
+fn exec_neg(lo: Vec<u8>, po: Vec<u8>, flags: u8) -> String {
     let (l, p) = match (OpenMessage::from_octets(lo.clone()), OpenMessage::from_octets(po.clone())) {
         (Ok(l), Ok(p)) => (l, p),
         _ => return "err".into(),
@@ -95,7 +111,7 @@ fn exec_neg(lo: Vec<u8>, po: Vec<u8>, legacy: bool) -> String {
     let mut h = SessionConfig::modern();
     h.set_four_octet_asns(routecore::bgp::message::update::FourOctetAsns(l.four_octet_capable() && p.four_octet_capable()));
     for fd in l.addpath_intersection(&p) { h.add_famdir(fd); }
-    let pu = match PeerUpNotification::from_octets(peer_up(&lo, &po, legacy)) {
+    let pu = match PeerUpNotification::from_octets(peer_up(&lo, &po, flags)) {
         Ok(x) => x,
         Err(_) => return format!("H {} | B err", show_cfg(&h, &fams)),
     };
@@ -166,7 +182,13 @@ fn exec_live(fams_cfg: Vec<Fam>, po: Vec<u8>, delay: bool) -> String {
         if delay {
             while let Ok(m) = pdu_rx.try_recv() { if let BgpMsg::Open(o) = m { open_sent = Some(o); } }
         }
-        let (sent4, sentap) = match &open_sent {
+        observe(&mut s, &open_sent, r.is_err(), &fams)
+    })
+}
+
+/// what the session advertised, the configuration its connection decodes with, two probe UPDATEs
+fn observe(s: &mut Session<Cfg>, open_sent: &Option<OpenMessage<Bytes>>, inject_err: bool, fams: &[Fam]) -> String {
+        let (sent4, sentap) = match open_sent {
             Some(sent) => (sent.four_octet_capable() as u8, match sent.addpath_families_vec() {
                 Ok(v) if v.is_empty() => "-".to_string(),
                 Ok(v) => v.iter().map(|(f, d)| { let (a, s) = fam_of(*f); format!("{}/{}/{}", a, s, u8::from(*d)) }).collect::<Vec<_>>().join(","),
@@ -174,9 +196,9 @@ fn exec_live(fams_cfg: Vec<Fam>, po: Vec<u8>, delay: bool) -> String {
             }),
             None => (9, "no-open".to_string()),
         };
-        if r.is_err() { return format!("L inject-err sent4={} sentap={}", sent4, sentap); }
+        if inject_err { return format!("L inject-err sent4={} sentap={}", sent4, sentap); }
         let conn = match s.verif_connection_mut() { Some(c) => c, None => return "L no-connection".to_string() };
-        let cfgs = show_cfg(conn.verif_session_config(), &fams);
+        let cfgs = show_cfg(conn.verif_session_config(), fams);
         // probe 1: conventional IPv4 NLRI bytes 00 00 00 00 08 0a, valid both ways: with ADD-PATH one
         // NLRI (path id 0, 10.0.0.0/8), without it five (four times 0/0, then 10.0.0.0/8)
         conn.verif_push_bytes(&update_with(&[], &[0, 0, 0, 0, 8, 10]));
@@ -206,6 +228,58 @@ fn exec_live(fams_cfg: Vec<Fam>, po: Vec<u8>, delay: bool) -> String {
             }
         };
         format!("L {} sent4={} sentap={} probe={} aspath={}", cfgs, sent4, sentap, p1, p2)
+}
+
+/// ONE Session used for two connections: OPEN exchange #1 (state OpenSent, BgpOpen(peer1)), the
+/// connection is lost (TcpConnectionFails), the session is started again (state Connect) and a new
+/// TCP stream is handed to it through the public `attach_stream` (which raises
+/// TcpConnectionConfirmed: the session sends its OPEN and is in OpenSent), OPEN exchange #2
+/// (BgpOpen(peer2)); observed after #2.  The configuration of connection #2 must be what the two
+/// OPENs of connection #2 give.
+fn exec_live2(fams_cfg: Vec<Fam>, po1: Vec<u8>, po2: Vec<u8>) -> String {
+    let (peer1, peer2) = match (OpenMessage::from_octets(Bytes::from(po1)), OpenMessage::from_octets(Bytes::from(po2.clone()))) {
+        (Ok(a), Ok(b)) => (a, b), _ => return "err".into() };
+    let rt = tokio::runtime::Builder::new_current_thread().enable_all().build().unwrap();
+    rt.block_on(async move {
+        use tokio::io::AsyncWriteExt;
+        let listener = tokio::net::TcpListener::bind("127.0.0.1:0").await.unwrap();
+        let addr = listener.local_addr().unwrap();
+        let _client1 = tokio::net::TcpStream::connect(addr).await.unwrap();
+        let (server, _) = listener.accept().await.unwrap();
+        let (rd, _wr) = server.into_split();
+        let (tx, mut rx) = tokio::sync::mpsc::channel::<SessMsg>(64);
+        let (_cmd_tx, cmd_rx) = tokio::sync::mpsc::channel::<Command>(16);
+        let (pdu_tx, mut pdu_rx) = tokio::sync::mpsc::channel::<BgpMsg<Bytes>>(64);
+        let cfg = Cfg { addpath: fams_cfg.iter().map(|(a, s)| AfiSafiType::from((*a, *s))).collect() };
+        let mut s = Session::new(cfg, rd, tx, cmd_rx, pdu_tx);
+        // connection #1
+        s.verif_set_state(State::OpenSent);
+        s.send_open();
+        let r1 = s.verif_inject_event(Event::BgpOpen(peer1)).await;
+        while rx.try_recv().is_ok() {}
+        while pdu_rx.try_recv().is_ok() {}
+        if r1.is_err() { return "L2 first-err".to_string(); }
+        // connection #1 is lost; the session is started again and waits in Connect
+        let _ = s.verif_inject_event(Event::TcpConnectionFails).await;
+        let _ = s.verif_take_connection();
+        s.verif_set_timers(false, false, false, false);
+        s.verif_set_state(State::Connect);
+        while rx.try_recv().is_ok() {}
+        while pdu_rx.try_recv().is_ok() {}
+        // connection #2: the peer connects again and sends its new OPEN; the stream goes to the same Session
+        let mut client2 = tokio::net::TcpStream::connect(addr).await.unwrap();
+        let (server2, _) = listener.accept().await.unwrap();
+        let _ = client2.write_all(&po2).await;
+        let (rd2, _wr2) = server2.into_split();
+        match tokio::time::timeout(std::time::Duration::from_secs(5), s.attach_stream(rd2)).await { Ok(()) => {}, Err(_) => return "L2 attach-hang".to_string() }
+        let open_sent = match pdu_rx.try_recv() { Ok(BgpMsg::Open(o)) => Some(o), _ => return format!("L2 no-open-sent state={:?}", s.state()) };
+        if s.state() != State::OpenSent { return format!("L2 state={:?}", s.state()); }
+        let mut extra: Vec<Fam> = fams_cfg.clone();
+        if let Ok(v) = peer2.addpath_families_vec() { for (f, _) in v { extra.push(fam_of(f)); } }
+        let fams = watched(&extra);
+        let r2 = s.verif_inject_event(Event::BgpOpen(peer2)).await;
+        while rx.try_recv().is_ok() {}
+        observe(&mut s, &open_sent, r2.is_err(), &fams)
     })
 }
 
@@ -233,28 +307,90 @@ pub fn mk_open(four: bool, aps: &[Vec<(Fam, u8)>], one_param: bool, extra_mp: bo
     RefOpen { ver: 4, asn2: 23456, ht: 90, id: [10, 0, 0, 9], params }.encode()
 }
 
+/// OPEN whose ADD-PATH capabilities are given as raw values (any length, any direction octet)
+pub fn mk_open_raw(four: bool, ap_vals: &[Vec<u8>], one_param: bool, extra_mp: bool) -> Vec<u8> {
+    let mut caps: Vec<Vec<u8>> = vec![];
+    if extra_mp { caps.push(vec![1, 4, 0, 1, 0, 1]); }
+    if four { caps.push(vec![65, 4, 0, 0, 0xfd, 0xe8]); }
+    for val in ap_vals { let mut v = vec![69, val.len() as u8]; v.extend_from_slice(val); caps.push(v); }
+    let params: Vec<(u8, Vec<u8>)> = if one_param {
+        if caps.is_empty() { vec![] } else { vec![(2, caps.concat())] }
+    } else { caps.into_iter().map(|c| (2, c)).collect() };
+    RefOpen { ver: 4, asn2: 23456, ht: 90, id: [10, 0, 0, 9], params }.encode()
+}
+
+/// an ADD-PATH capability value that `from_octets` may let through although it is not well-formed
+fn malformed_ap_vals(rng: &mut Rng) -> Vec<Vec<u8>> {
+    let pool: [Fam; 4] = [(1, 1), (2, 1), (1, 2), (25, 70)];
+    let ent = |f: Fam, d: u8| { let a = f.0.to_be_bytes(); vec![a[0], a[1], f.1, d] };
+    let good = |rng: &mut Rng| { let f = *rng.pick(&pool); ent(f, rng.range(1, 3) as u8) };
+    let bad_dir = |rng: &mut Rng| *rng.pick(&[0u8, 0, 4, 7, 128, 255]);
+    match rng.below(7) {
+        0 => { let mut v = good(rng); let f = *rng.pick(&pool); v.extend(ent(f, bad_dir(rng))); vec![v] }          // later tuple bad
+        1 => { let f = *rng.pick(&pool); let mut v = ent(f, 0); if rng.bool() { v.extend(good(rng)); } vec![v] }    // first tuple direction 0
+        2 => { let mut v = good(rng); let k = rng.usize(1, 3); v.extend(rng.bytes(k)); vec![v] }                    // length 4k+r
+        3 => vec![good(rng), { let f = *rng.pick(&pool); ent(f, bad_dir(rng)) }],                                   // second capability bad
+        4 => vec![vec![], good(rng)],                                                                               // zero-length capability first
+        5 => { let mut v = good(rng); v.extend(good(rng)); let f = *rng.pick(&pool); v.extend(ent(f, bad_dir(rng))); v.extend(good(rng)); vec![v] }
+        _ => { let f = *rng.pick(&pool); vec![ent(f, bad_dir(rng))] }                                              // first tuple bad (> 3: refused by from_octets)
+    }
+}
+
 fn dirs_to_aps(fams: &[Fam], dirs: &[u8], split: bool) -> Vec<Vec<(Fam, u8)>> {
     let entries: Vec<(Fam, u8)> = fams.iter().zip(dirs).filter(|(_, d)| **d != 0).map(|(f, d)| (*f, *d)).collect();
     if entries.is_empty() { return vec![]; }
     if split { entries.into_iter().map(|e| vec![e]).collect() } else { vec![entries] }
 }
 
-fn expect_cfg(four: bool, local: &[(Fam, u8)], peer: &[(Fam, u8)], fams: &[Fam]) -> String {
-    // the property's definition, per family (first entry per family on each side)
-    let first = |l: &[(Fam, u8)], f: Fam| l.iter().find(|(g, _)| *g == f).map(|(_, d)| *d);
-    let mut map: BTreeMap<Fam, u8> = BTreeMap::new();
-    let mut all: Vec<Fam> = local.iter().map(|(f, _)| *f).collect();
-    all.extend(peer.iter().map(|(f, _)| *f));
-    for f in all {
-        let (l, p) = (first(local, f).unwrap_or(0), first(peer, f).unwrap_or(0));
+/// `four=<0|1> cfg=<-|a/s:d,..> rx=<bits>` -> (four, stored directions, rx bits)
+fn parse_cfg(part: &str) -> Option<(bool, BTreeMap<Fam, u8>, String)> {
+    let mut it = part.split(' ');
+    let four = match it.next()?.strip_prefix("four=")? { "1" => true, "0" => false, _ => return None };
+    let cfg = it.next()?.strip_prefix("cfg=")?;
+    let rx = it.next()?.strip_prefix("rx=")?.to_string();
+    if it.next().is_some() { return None; }
+    let mut map = BTreeMap::new();
+    if cfg != "-" { for e in cfg.split(',') {
+        let (f, d) = e.split_once(':')?; let (a, s) = f.split_once('/')?;
+        map.insert((a.parse().ok()?, s.parse().ok()?), d.parse().ok()?);
+    } }
+    Some((four, map, rx))
+}
+
+fn strip_four(part: &str) -> &str { part.split_once(' ').map(|x| x.1).unwrap_or("") }
+
+/// the property's definition for one family: what negotiation may yield given everything the two
+/// OPENs say about it (one value unless an OPEN names the family twice with different directions)
+fn allowed(local: &[(Fam, u8)], peer: &[(Fam, u8)], f: Fam) -> Vec<u8> {
+    let dirs = |l: &[(Fam, u8)]| { let v: Vec<u8> = l.iter().filter(|(g, _)| *g == f).map(|(_, d)| *d).collect(); if v.is_empty() { vec![0] } else { v } };
+    let mut out = vec![];
+    for l in dirs(local) { for p in dirs(peer) {
         let rx = (l & 1 != 0) && (p & 2 != 0);
         let tx = (l & 2 != 0) && (p & 1 != 0);
         let d = (rx as u8) | ((tx as u8) << 1);
-        if d != 0 { map.insert(f, d); }
+        if !out.contains(&d) { out.push(d); }
+    } }
+    out
+}
+
+fn judge_cfg(who: &str, part: &str, four: bool, local: &[(Fam, u8)], peer: &[(Fam, u8)], fams: &[Fam]) -> Result<(), String> {
+    let (got4, map, rx) = parse_cfg(part).ok_or_else(|| format!("{}: no configuration derived: `{}`", who, part))?;
+    if got4 != four { return Err(format!("{}: four-octet {} but expected {}", who, got4, four)); }
+    let mut all: Vec<Fam> = fams.to_vec();
+    for f in map.keys() { if !all.contains(f) { all.push(*f); } }
+    for f in &all {
+        let d = map.get(f).copied().unwrap_or(0);
+        let ok = allowed(local, peer, *f);
+        if !ok.contains(&d) {
+            return Err(format!("{}: family {}/{} negotiated as {} (1 = receive, 2 = send, 3 = both, 0 = none), the OPENs give {:?}", who, f.0, f.1, d, ok));
+        }
     }
-    let cfg = if map.is_empty() { "-".to_string() } else { map.iter().map(|((a, s), d)| format!("{}/{}:{}", a, s, d)).collect::<Vec<_>>().join(",") };
-    let rx: String = fams.iter().map(|f| if map.get(f).map(|d| d & 1 != 0).unwrap_or(false) { '1' } else { '0' }).collect();
-    format!("four={} cfg={} rx={}", four as u8, cfg, rx)
+    if rx.len() != fams.len() { return Err(format!("{}: rx field", who)); }
+    for (i, f) in fams.iter().enumerate() {
+        let d = map.get(f).copied().unwrap_or(0);
+        if (rx.as_bytes()[i] == b'1') != (d & 1 != 0) { return Err(format!("{}: rx_addpath({}/{}) disagrees with the stored direction {}", who, f.0, f.1, d)); }
+    }
+    Ok(())
 }
 
 fn nodup(l: &[(Fam, u8)]) -> bool { (0..l.len()).all(|i| (0..i).all(|j| l[i].0 != l[j].0)) }
@@ -268,7 +404,13 @@ impl Prop for C12 {
             let lo = mk_open(l4, &dirs_to_aps(&f4[..1], &[ld], false), true, true);
             let po = mk_open(p4, &dirs_to_aps(&f4[..1], &[pd], false), false, false);
             v.push(format!("neg {} {} {}", hex(&lo), hex(&po), legacy));
+            // other per-peer flag octets with the same A bit (L, O, V set)
+            if ld == 3 && pd == 3 { v.push(format!("neg {} {} {}", hex(&lo), hex(&po), legacy + 2)); }
         } } } } }
+        // AddpathFamDir::merge, exhaustively over directions x same / different family
+        for fx in [(1u16, 1u8), (2, 1), (25, 70)] { for fy in [(1u16, 1u8), (2, 1), (1, 2)] { for dx in 1..=3u8 { for dy in 1..=3u8 {
+            v.push(format!("fdm {}.{} {} {}.{} {}", fx.0, fx.1, dx, fy.0, fy.1, dy));
+        } } } }
         // exhaustive: all subsets of 4 families on both sides (direction SendReceive / mixed), both layouts
         for lm in 0..16u32 { for pm in 0..16u32 {
             let ld: Vec<u8> = (0..4).map(|i| if lm >> i & 1 == 1 { [3u8, 1, 2, 3][i] } else { 0 }).collect();
@@ -312,7 +454,69 @@ impl Prop for C12 {
                 mk_open(rng.chance(2, 3), &aps, rng.bool(), rng.bool())
             };
             let lo = side(rng); let po = side(rng);
+            v.push(format!("neg {} {} {}", hex(&lo), hex(&po), rng.below(4)));
+        }
+        // live sessions whose peer names a family twice (different directions; in one capability, in
+        // two, in two parameters), configured families repeated / outside the usual four
+        let n = match tier { Tier::Quick => 120, Tier::Thorough => 8000 };
+        for i in 0..n {
+            let k = rng.usize(1, 3);
+            let mut cfv: Vec<Fam> = (0..k).map(|_| *rng.pick(&pool)).collect();
+            if rng.chance(1, 4) { let d = cfv[0]; cfv.push(d); }
+            let mut entries: Vec<(Fam, u8)> = vec![];
+            let dupf = cfv[rng.usize(0, cfv.len() - 1)];
+            let d1 = rng.range(1, 3) as u8;
+            let d2 = if i % 8 == 7 { d1 } else { [2u8, 3, 1][(d1 - 1) as usize] };
+            entries.push((dupf, d1));
+            for _ in 0..rng.usize(0, 2) { entries.push((*rng.pick(&pool), rng.range(1, 3) as u8)); }
+            entries.push((dupf, d2));
+            let aps: Vec<Vec<(Fam, u8)>> = if rng.bool() { vec![entries] } else {
+                let cut = rng.usize(1, entries.len() - 1); let (a, b) = entries.split_at(cut); vec![a.to_vec(), b.to_vec()]
+            };
+            let po = mk_open(rng.chance(2, 3), &aps, rng.bool(), rng.bool());
+            let cf = cfv.iter().map(|(a, s)| format!("{}.{}", a, s)).collect::<Vec<_>>().join(",");
+            v.push(format!("{} {} {}", if rng.bool() { "live" } else { "live-delay" }, cf, hex(&po)));
+            // the same pair through helper and BMP
+            let lo = mk_open(true, &[cfv.iter().map(|f| (*f, 3u8)).collect::<Vec<_>>()], true, true);
             v.push(format!("neg {} {} {}", hex(&lo), hex(&po), rng.below(2)));
+        }
+        // OPENs that from_octets lets through although an ADD-PATH capability is not well-formed
+        // (outside the property; the model mirrors what routecore does with them)
+        let n = match tier { Tier::Quick => 150, Tier::Thorough => 10000 };
+        for _ in 0..n {
+            let bad = mk_open_raw(rng.chance(2, 3), &malformed_ap_vals(rng), rng.bool(), rng.bool());
+            let good = mk_open(rng.chance(2, 3), &dirs_to_aps(&f4, &[rng.below(4) as u8, rng.below(4) as u8, 0, 3], rng.bool()), rng.bool(), rng.bool());
+            match rng.below(4) {
+                0 => v.push(format!("neg {} {} {}", hex(&bad), hex(&good), rng.below(2))),
+                1 => v.push(format!("neg {} {} {}", hex(&good), hex(&bad), rng.below(2))),
+                2 => v.push(format!("live {} {}", *rng.pick(&["-", "1.1", "1.1,2.1"]), hex(&bad))),
+                _ => v.push(format!("live-delay {} {}", *rng.pick(&["-", "1.1", "1.1,2.1"]), hex(&bad))),
+            }
+        }
+        // the second connection of a Session: everything the first exchange negotiated x everything
+        // the second one advertises (one family), then random pairs
+        for d1 in 0..4u8 { for d2 in 0..4u8 { for p4 in [false, true] {
+            let po1 = mk_open(true, &dirs_to_aps(&f4[..1], &[d1], false), true, true);
+            let po2 = mk_open(p4, &dirs_to_aps(&f4[..1], &[d2], false), true, true);
+            v.push(format!("live2 1.1 {} {}", hex(&po1), hex(&po2)));
+        } } }
+        let n = match tier { Tier::Quick => 60, Tier::Thorough => 4000 };
+        for _ in 0..n {
+            let lm = rng.range(1, 15) as u32;
+            let cf: Vec<String> = (0..4).filter(|i| lm >> i & 1 == 1).map(|i| format!("{}.{}", f4[i].0, f4[i].1)).collect();
+            let pd1: Vec<u8> = (0..4).map(|_| rng.below(4) as u8).collect();
+            let pd2: Vec<u8> = (0..4).map(|_| rng.below(4) as u8).collect();
+            let po1 = mk_open(rng.bool(), &dirs_to_aps(&f4, &pd1, rng.bool()), rng.bool(), rng.bool());
+            let po2 = mk_open(rng.bool(), &dirs_to_aps(&f4, &pd2, rng.bool()), rng.bool(), rng.bool());
+            v.push(format!("live2 {} {} {}", cf.join(","), hex(&po1), hex(&po2)));
+        }
+        // many configured families: the OPEN the session sends approaches the one-octet limits of
+        // OpenBuilder::finish (58 families fit; 59 is known finding K4, in the corpus)
+        for nf in [20usize, 57, 58] {
+            let cf = (1..=nf).map(|i| format!("1.{}", i)).collect::<Vec<_>>().join(",");
+            let po = mk_open(true, &[vec![((1, 1), 3), ((1, 58), 2), ((1, 59), 1)]], true, true);
+            v.push(format!("live {} {}", cf, hex(&po)));
+            v.push(format!("live-delay {} {}", cf, hex(&po)));
         }
         v
     }
@@ -320,9 +524,17 @@ impl Prop for C12 {
     fn exec(&self, line: &str) -> String {
         let w: Vec<&str> = line.split(' ').collect();
         match w.as_slice() {
-            ["neg", l, p, g] => match (unhex(l), unhex(p), *g) {
-                (Some(l), Some(p), "0") => exec_neg(l, p, false),
-                (Some(l), Some(p), "1") => exec_neg(l, p, true),
+            ["neg", l, p, g] => match (unhex(l), unhex(p), flags_of(g)) {
+                (Some(l), Some(p), Some(fl)) => exec_neg(l, p, fl),
+                _ => "bad-op".into(),
+            },
+            ["fdm", x, dx, y, dy] => match (parse_fams(x), dx.parse::<u8>(), parse_fams(y), dy.parse::<u8>()) {
+                (Some(fx), Ok(dx), Some(fy), Ok(dy)) if fx.len() == 1 && fy.len() == 1 => {
+                    let (Ok(dx), Ok(dy)) = (AddpathDirection::try_from(dx), AddpathDirection::try_from(dy)) else { return "bad-op".into() };
+                    let a = AddpathFamDir::new(AfiSafiType::from(fx[0]), dx);
+                    let b = AddpathFamDir::new(AfiSafiType::from(fy[0]), dy);
+                    match a.merge(b) { None => "none".into(), Some(m) => { let (af, sf) = fam_of(m.fam()); format!("{}/{}:{}", af, sf, u8::from(m.dir())) } }
+                }
                 _ => "bad-op".into(),
             },
             ["live", f, p] => match (parse_fams(f), unhex(p)) {
@@ -333,6 +545,10 @@ impl Prop for C12 {
                 (Some(f), Some(p)) => exec_live(f, p, true),
                 _ => "bad-op".into(),
             },
+            ["live2", f, p1, p2] => match (parse_fams(f), unhex(p1), unhex(p2)) {
+                (Some(f), Some(p1), Some(p2)) => exec_live2(f, p1, p2),
+                _ => "bad-op".into(),
+            },
             _ => "bad-op".into(),
         }
     }
@@ -341,38 +557,99 @@ impl Prop for C12 {
         let w: Vec<&str> = line.split(' ').collect();
         if reply == "panic" { return Err("negotiation panicked".into()); }
         match w.as_slice() {
-            ["neg", l, p, g] => {
-                let (lo, po) = (unhex(l).ok_or("hex")?, unhex(p).ok_or("hex")?);
-                let (Some((l4, lap)), Some((p4, pap))) = (ref_ap(&lo), ref_ap(&po)) else { return Ok(()) };
-                let dirs_ok = lap.iter().chain(pap.iter()).all(|(_, d)| (1..=3).contains(d));
-                if !dirs_ok { return Ok(()); }
-                if !nodup(&lap) || !nodup(&pap) { return Ok(()); } // first-match rule: judged by the model only
-                let mut extra: Vec<Fam> = lap.iter().map(|(f, _)| *f).collect(); extra.extend(pap.iter().map(|(f, _)| *f));
-                let fams = watched(&extra);
-                let want_h = expect_cfg(l4 && p4, &lap, &pap, &fams);
-                let want_p = expect_cfg(*g == "0", &lap, &pap, &fams);
-                let want = format!("H {} | B {} | P {} incons={}", want_h, want_h, want_p, ((l4 && p4) != (*g == "0")) as u8);
-                if reply != want { return Err(format!("expected `{}`", want)); }
-                // swap: exchanging the OPENs exchanges send and receive
-                let sw = catch(|| exec_neg(po.clone(), lo.clone(), *g == "1"));
-                let want_sw = expect_cfg(l4 && p4, &pap, &lap, &fams);
-                if !sw.starts_with(&format!("H {} | B {} |", want_sw, want_sw)) { return Err(format!("swapped OPENs: got `{}`, expected H/B `{}`", sw, want_sw)); }
+            ["fdm", x, dx, y, dy] => {
+                // AddpathFamDir::merge: same family -> the per-family definition; different families -> nothing
+                let (fx, fy) = (parse_fams(x).ok_or("fam")?, parse_fams(y).ok_or("fam")?);
+                let (dx, dy): (u8, u8) = (dx.parse().map_err(|_| "dir")?, dy.parse().map_err(|_| "dir")?);
+                if fx.len() != 1 || fy.len() != 1 || !(1..=3).contains(&dx) || !(1..=3).contains(&dy) { return Ok(()); }
+                let d = (((dx & 1 != 0) && (dy & 2 != 0)) as u8) | ((((dx & 2 != 0) && (dy & 1 != 0)) as u8) << 1);
+                let want = if fx[0] != fy[0] || d == 0 { "none".to_string() } else { format!("{}/{}:{}", fx[0].0, fx[0].1, d) };
+                if reply != want { return Err(format!("AddpathFamDir::merge: expected `{}`", want)); }
                 Ok(())
             }
-            ["live", f, p] | ["live-delay", f, p] => {
+            ["neg", l, p, g] => {
+                let (lo, po) = (unhex(l).ok_or("hex")?, unhex(p).ok_or("hex")?);
+                let flags = flags_of(g).ok_or("flags")?;
+                let modern = flags & 0x20 == 0; // RFC 7854: A flag clear = 4-octet AS_PATH format
+                // ref_ap is Some only for well-formed OPENs (every ADD-PATH capability RFC 7911-shaped)
+                let (Some((l4, lap)), Some((p4, pap))) = (ref_ap(&lo), ref_ap(&po)) else { return Ok(()) };
+                let mut extra: Vec<Fam> = lap.iter().map(|(f, _)| *f).collect(); extra.extend(pap.iter().map(|(f, _)| *f));
+                let fams = watched(&extra);
+                let parts: Vec<&str> = reply.split(" | ").collect();
+                if parts.len() != 3 || !parts[0].starts_with("H ") || !parts[1].starts_with("B ") || !parts[2].starts_with("P ") {
+                    return Err(format!("a well-formed OPEN pair was not negotiated by all three derivations: `{}`", reply));
+                }
+                let (h, b) = (&parts[0][2..], &parts[1][2..]);
+                let (pc, inc) = parts[2][2..].rsplit_once(" incons=").ok_or("P part")?;
+                judge_cfg("helper", h, l4 && p4, &lap, &pap, &fams)?;
+                judge_cfg("BMP session_config", b, l4 && p4, &lap, &pap, &fams)?;
+                judge_cfg("BMP pph_session_config", pc, modern, &lap, &pap, &fams)?;
+                if inc != (((l4 && p4) != modern) as u8).to_string() { return Err(format!("pph_session_config: inconsistency flag {} for OPENs four-octet={} and per-peer flags {:#04x}", inc, l4 && p4, flags)); }
+                // identically: the same family table from all three
+                if h != b { return Err(format!("helper and BMP session_config differ: `{}` vs `{}`", h, b)); }
+                if strip_four(h) != strip_four(pc) { return Err(format!("helper and BMP pph_session_config differ in ADD-PATH: `{}` vs `{}`", h, pc)); }
+                // swap: exchanging the OPENs exchanges send and receive
+                let sw = catch(|| exec_neg(po.clone(), lo.clone(), flags));
+                let swp: Vec<&str> = sw.split(" | ").collect();
+                if swp.len() != 3 { return Err(format!("swapped OPENs: got `{}`", sw)); }
+                judge_cfg("helper, OPENs swapped", &swp[0][2..], l4 && p4, &pap, &lap, &fams)?;
+                judge_cfg("BMP session_config, OPENs swapped", &swp[1][2..], l4 && p4, &pap, &lap, &fams)?;
+                judge_cfg("BMP pph_session_config, OPENs swapped", swp[2][2..].rsplit_once(" incons=").ok_or("P part")?.0, modern, &pap, &lap, &fams)?;
+                if nodup(&lap) && nodup(&pap) {
+                    // rx of one side = tx of the other, family by family
+                    let (_, m1, _) = parse_cfg(h).ok_or("cfg")?; let (_, m2, _) = parse_cfg(&swp[0][2..]).ok_or("cfg")?;
+                    for f in &fams {
+                        let (d1, d2) = (m1.get(f).copied().unwrap_or(0), m2.get(f).copied().unwrap_or(0));
+                        if (d1 & 1 != 0) != (d2 & 2 != 0) || (d1 & 2 != 0) != (d2 & 1 != 0) { return Err(format!("swapping the OPENs does not swap send and receive for {}/{}", f.0, f.1)); }
+                    }
+                }
+                Ok(())
+            }
+            ["live", f, p] | ["live-delay", f, p] | ["live2", f, _, p] => {
+                // live2: the pair is (the OPEN sent on connection #2, the peer's OPEN on connection #2);
+                // what was negotiated on the first connection must not matter
+                if w[0] == "live2" {
+                    if reply == "err" || reply == "L2 first-err" { return Ok(()); } // first OPEN not usable: nothing to judge
+                    if reply.starts_with("L2 ") { return Err(format!("second connection of the session: {}", reply)); }
+                }
                 let cf = parse_fams(f).ok_or("fams")?;
                 let po = unhex(p).ok_or("hex")?;
                 let Some((p4, pap)) = ref_ap(&po) else { return Ok(()) };
-                if !nodup(&pap) { return Ok(()); }
-                let lap: Vec<(Fam, u8)> = cf.iter().map(|f| (*f, 3u8)).collect();
+                // L <four= cfg= rx=> sent4=<0|1> sentap=<list> probe=<..> aspath=<..>
+                let rest = reply.strip_prefix("L ").ok_or_else(|| format!("a well-formed OPEN was not negotiated: `{}`", reply))?;
+                let fld = |k: &str| rest.split(' ').find_map(|x| x.strip_prefix(k));
+                let (Some(sent4), Some(sentap), Some(probe), Some(aspath)) = (fld("sent4="), fld("sentap="), fld("probe="), fld("aspath=")) else {
+                    return Err(format!("a well-formed OPEN was not negotiated: `{}`", reply));
+                };
+                // the local OPEN of the pair is the one the session sent
+                let l4 = match sent4 { "1" => true, "0" => false, _ => return Err("the session sent no OPEN".into()) };
+                let mut lap: Vec<(Fam, u8)> = vec![];
+                if sentap != "-" { for e in sentap.split(',') {
+                    let x: Vec<&str> = e.split('/').collect();
+                    if x.len() != 3 { return Err(format!("the session's own OPEN has an unreadable ADD-PATH capability: {}", sentap)); }
+                    lap.push(((x[0].parse().map_err(|_| "sentap")?, x[1].parse().map_err(|_| "sentap")?), x[2].parse().map_err(|_| "sentap")?));
+                } }
                 let mut extra: Vec<Fam> = cf.clone(); extra.extend(pap.iter().map(|(f, _)| *f));
                 let fams = watched(&extra);
-                let sentap = if lap.is_empty() { "-".to_string() } else { lap.iter().map(|((a, s), d)| format!("{}/{}/{}", a, s, d)).collect::<Vec<_>>().join(",") };
-                let want_cfg = expect_cfg(p4, &lap, &pap, &fams);
-                let rx11 = lap.iter().any(|(f, _)| *f == (1, 1)) && pap.iter().any(|(f, d)| *f == (1, 1) && d & 2 != 0);
-                let want = format!("L {} sent4=1 sentap={} probe={} aspath={}", want_cfg, sentap,
-                    if rx11 { "pathid" } else { "plain" }, if p4 { "as4" } else { "as2" });
-                if reply != want { return Err(format!("expected `{}`", want)); }
+                let cfg_part = rest.split(" sent4=").next().unwrap_or("");
+                judge_cfg("live session", cfg_part, l4 && p4, &lap, &pap, &fams)?;
+                let (four, map, _) = parse_cfg(cfg_part).ok_or("cfg")?;
+                // how the session really decodes: path ids on 1/1 iff reception negotiated, AS width
+                let rx11 = map.get(&(1, 1)).map(|d| d & 1 != 0).unwrap_or(false);
+                if probe != if rx11 { "pathid" } else { "plain" } { return Err(format!("probe UPDATE decoded as `{}` although ADD-PATH reception for 1/1 is {}", probe, rx11)); }
+                if aspath != if four { "as4" } else { "as2" } { return Err(format!("AS_PATH probe decoded as `{}` although four-octet is {}", aspath, four)); }
+                // identically: helper and BMP on (the OPEN sent, the peer's OPEN) give the same table
+                // (families the session advertised and the peer named: the same set the reply shows)
+                let mut lfams: Vec<Fam> = vec![]; for (f, _) in &lap { if !lfams.contains(f) { lfams.push(*f); } }
+                let same_keys = { let mut a = lfams.clone(); a.sort(); let mut b = cf.clone(); b.sort(); b.dedup(); a == b };
+                if same_keys {
+                    let lo = mk_open(l4, &if lap.is_empty() { vec![] } else { vec![lap.clone()] }, true, false);
+                    let hb = catch(|| exec_neg(lo.clone(), po.clone(), 0));
+                    let hp: Vec<&str> = hb.split(" | ").collect();
+                    if hp.len() != 3 { return Err(format!("helper/BMP on the session's OPEN and the peer's: `{}`", hb)); }
+                    if &hp[0][2..] != cfg_part { return Err(format!("live session and intersection helper differ: `{}` vs `{}`", cfg_part, &hp[0][2..])); }
+                    if &hp[1][2..] != cfg_part { return Err(format!("live session and BMP session_config differ: `{}` vs `{}`", cfg_part, &hp[1][2..])); }
+                }
                 Ok(())
             }
             _ => Ok(()),
